@@ -12,6 +12,7 @@ use crate::parser::*;
 //@include stack_vocab.vs
 //@include parser_vocab.vs
 //@include seam_vocab.vs
+//@include blank_line_law.vs
 //@include block_vocab.vs
 
 pub mod builder {
@@ -355,6 +356,28 @@ pub open spec fn configured_formatters(fs: Seq<Box<dyn Formatter>>, sfs: Seq<Box
     &&& forall|b: Seq<u8>, p: int| #![trigger fs[3].spec_format(b, p)] fs[3].spec_format(b, p) == next_remover_spec(b, p)
     &&& sfs.len() == 1
     &&& forall|b: Seq<u8>, s: int, e: int| #![trigger sfs[0].spec_format(b, s, e)] sfs[0].spec_format(b, s, e) == block_spec(b, s, e)
+}
+/// C13 at the entry point: for the configured formatters the interval format_block deletes around a seam is hull4,
+/// for which lemma_blank_line_law gives the a + b - 1 law at a block seam
+pub proof fn lemma_hull_is_hull4(fs: Seq<Box<dyn Formatter>>, sfs: Seq<Box<dyn BlockFormatter>>, b: Seq<u8>, p: int)
+    requires configured_formatters(fs, sfs),
+    ensures crate::formatter::hull_spec(fs, b, p, fs.len() as int) == crate::hull4(b, p),
+{
+    reveal_with_fuel(crate::formatter::hull_spec, 5);
+    assert(fs[0].spec_format(b, p) == indent_spec(b, p));
+    assert(fs[1].spec_format(b, p) == empty_line_spec(b, p));
+    assert(fs[2].spec_format(b, p) == prev_remover_spec(b, p));
+    assert(fs[3].spec_format(b, p) == next_remover_spec(b, p));
+}
+pub proof fn lemma_blank_line_law_configured(fs: Seq<Box<dyn Formatter>>, sfs: Seq<Box<dyn BlockFormatter>>, b: Seq<u8>, p: int, ls: int)
+    requires configured_formatters(fs, sfs), crate::block_seam(b, p, ls),
+    ensures ({
+        let h = crate::formatter::hull_spec(fs, b, p, fs.len() as int);
+        crate::count_lf(b, h.0, h.1) == (if crate::blank_before(b, ls) && crate::blank_after(b, p) { 2nat } else { 1nat })
+    }),
+{
+    lemma_hull_is_hull4(fs, sfs, b, p);
+    crate::lemma_blank_line_law(b, p, ls);
 }
 pub open spec fn clean_pipeline(cs: Seq<char>, ds: Seq<char>, de: Seq<char>, config: ChiritoriConfiguration, out: Seq<u8>,
         ts: Seq<crate::tokenizer::Token>, r: Remover, parts: Seq<crate::parser::ContentPart>, w: Seq<Range<usize>>,
